@@ -217,6 +217,17 @@ struct OpEnumerator
             c.label += " [const view]";
             out.push_back(c);
         }
+        // and the ops below an entry again with every entry on the path converted entry<Byte> ->
+        // entry<const Byte> (appended last: catalogue indices of earlier ops, which committed plans name, stay)
+        for(std::size_t i = 0; i < n0; i++)
+        {
+            if(out[i].rq.target == T_MESSAGE || out[i].rq.target == T_GROUP_AT_P) continue;
+            if(out[i].rq.path.empty() || out[i].rq.path.size() > 2) continue;
+            OpSpec c = out[i];
+            c.rq.entry_to_const = true;
+            c.label += " [entry converted to const]";
+            out.push_back(c);
+        }
     }
 };
 
